@@ -3,7 +3,10 @@
 package checks
 
 import (
+	"context"
 	"fmt"
+	"sync"
+	"sync/atomic"
 
 	"github.com/superfly/litefs"
 
@@ -218,6 +221,51 @@ func runC12Range(c *core.Case, k int) {
 			}
 		}
 	}
+	// ---- a refused range request changes nothing, not even for a moment: owner A
+	// holds READ1 exclusively and keeps asking for READ1..READ2 shared, which B's
+	// exclusive READ2 refuses; a third owner polling READ1 must never get in, and A
+	// must still hold READ1 exclusively afterwards
+	ctx := context.Background()
+	A, B, C := owners[0], owners[1], owners[2]
+	for _, o := range owners {
+		_ = files[o][0].Unlock(o, c12DBBytes[0].off, c12DBBytes[2].off+509)
+		_ = files[o][1].Unlock(o, 120, 128)
+	}
+	okA, _ := db.TryLocks(ctx, A, []litefs.LockType{litefs.LockTypeRead1})
+	okB, _ := db.TryLocks(ctx, B, []litefs.LockType{litefs.LockTypeRead2})
+	if !okA || !okB {
+		c.Inconclusive("setup of the concurrent range probe")
+		return
+	}
+	var stop atomic.Bool
+	var intruded atomic.Int64
+	var wg sync.WaitGroup
+	wg.Add(1)
+	go func() {
+		defer wg.Done()
+		for !stop.Load() {
+			if db.TryRLocks(ctx, C, []litefs.LockType{litefs.LockTypeRead1}) {
+				intruded.Add(1)
+				_ = db.Unlock(ctx, C, []litefs.LockType{litefs.LockTypeRead1})
+			}
+		}
+	}()
+	granted := 0
+	for i := 0; i < 3000; i++ {
+		if db.TryRLocks(ctx, A, []litefs.LockType{litefs.LockTypeRead1, litefs.LockTypeRead2}) {
+			granted++
+		}
+	}
+	stop.Store(true)
+	wg.Wait()
+	c.Count("range_concurrent_refusals", 3000)
+	stA := db.GuardSet(A).Guard(litefs.LockTypeRead1).State().String()
+	if granted > 0 || intruded.Load() > 0 || stA != "exclusive" {
+		c.Violate("C12/range/refused-request-changed-state", fmt.Sprintf("owner A holds READ1 exclusively and asked 3000 times for READ1..READ2 shared while B holds READ2 exclusively: granted %d times; a third owner polling READ1 got in %d times; A holds READ1 %s afterwards (a refused request changes nothing)", granted, intruded.Load(), stA), nil)
+		return
+	}
+	_ = db.Unlock(ctx, A, []litefs.LockType{litefs.LockTypeRead1})
+	_ = db.Unlock(ctx, B, []litefs.LockType{litefs.LockTypeRead2})
 	c.Distinct(fmt.Sprintf("range/k%d", k%8))
 }
 
